@@ -169,7 +169,20 @@ func c03Op(r *hx.Run, t *c03Tree, nextID *int, base c03Tree) string {
 		}
 		return rr.Intn(len(tree))
 	}
-	switch rr.Intn(15) {
+	switch rr.Intn(16) {
+	case 15: // the last rule of a file loses its trailing field: the only difference is lines deleted at the end of the file,
+		// which a blame of the new file cannot see (seeded change C03-no-modified-lines-means-noop)
+		if i := pickFile(); i >= 0 && len(tree[i].Rules) > 0 && !tree[i].Broken {
+			k := len(tree[i].Rules) - 1
+			switch {
+			case tree[i].Rules[k].Label != "":
+				tree[i].Rules[k].Label = ""
+				return "drop the labels at the end of " + tree[i].Path
+			case tree[i].Rules[k].For != "":
+				tree[i].Rules[k].For = ""
+				return "drop the for at the end of " + tree[i].Path
+			}
+		}
 	case 14: // labels of the group: every rule of the file gets another label set
 		if i := pickFile(); i >= 0 && !strings.HasPrefix(tree[i].Path, "rules/relaxed/") {
 			tree[i].GroupLabel = hx.Pick(rr, []string{"", "one", "two"})
